@@ -52,12 +52,19 @@ Proof. exact annot_shrinks. Qed.
 Print Assumptions annotations_only_shrink_live.
 
 (* ... and whatever additionally disappears hangs, in the unannotated graph, on
-   an item whose own status an annotation changed. *)
+   an item whose own status an annotation changed AND which is itself dead in
+   the annotated graph: only annotated items, and what they alone kept alive,
+   may additionally disappear. *)
 Theorem annotations_only_widen : forall g g', annot_le g g' -> forall x,
   live g x -> ~ live g' x ->
-  exists a, changed g g' a /\ live g a /\ path g a x.
-Proof. exact annot_widens_neg. Qed.
+  exists a, changed g g' a /\ live g a /\ ~ live g' a /\ path g a x.
+Proof. exact annot_widens_sharp. Qed.
 Print Assumptions annotations_only_widen.
+
+(* liveness is decidable *)
+Theorem live_decidable : forall g x, live g x \/ ~ live g x.
+Proof. exact live_dec. Qed.
+Print Assumptions live_decidable.
 
 (* Tree shaking off keeps every non-generated part of a live entry point. *)
 Theorem treeshake_off_keeps_entry_parts : forall g s f i p,
@@ -230,3 +237,38 @@ Theorem part_construction_keeps_every_declarator : forall stmts d,
         (p_can_remove q = true -> td_can_remove d = true)).
 Proof. exact build_parts_keeps_decls. Qed.
 Print Assumptions part_construction_keeps_every_declarator.
+
+(* ---- scope analysis (Scope.v) and the whole-program statement ---- *)
+From V Require Import C04.Scope C04.ScopeProofs.
+
+(* recordUsage through the scope chain records exactly the identifier
+   occurrences that no enclosing function binds: the references that resolve
+   to the module scope (or to an unbound global) *)
+Theorem scope_analysis_records_module_references : forall e b y, In y (fv b e) <-> refers b e y.
+Proof. exact fv_refers. Qed.
+Print Assumptions scope_analysis_records_module_references.
+
+Theorem analysis_uses_are_statement_references : forall D st y,
+  In (zs y) (flat_map td_uses (stmt_decls (analyze D st))) <-> stmt_refers st y.
+Proof. exact analyze_uses_spec. Qed.
+Print Assumptions analysis_uses_are_statement_references.
+
+Theorem analysis_declares_are_statement_names : forall D st x,
+  In (zs x) (flat_map td_declares (stmt_decls (analyze D st))) <-> In x (stmt_names st).
+Proof. exact analyze_declares_spec. Qed.
+Print Assumptions analysis_declares_are_statement_names.
+
+(* WHOLE PROGRAM. For every program of the statement language of Scope.v (any
+   files, tree shaking on or off, any entry points), through scope analysis,
+   the classifier, part construction, dependency linking and marking: removing
+   the parts the linker marks dead leaves a program in which every identifier
+   reference of the kept code still resolves to a retained declaration - or was
+   unbound to begin with (no statement of the program declares that name). *)
+Theorem removing_dead_parts_keeps_references_resolved : forall ts ign entries prog s i p x,
+  let g := link_program ts ign entries prog in
+  live g (IPart s i) -> get_part g s i = Some p -> In (zs x) (p_uses p) ->
+  (~ In x (program_names prog))
+  \/ ((exists t j, declares g t j (zs x)) /\
+      forall t j, declares g t j (zs x) -> live g (IPart t j) /\ live g (IFile t)).
+Proof. exact references_resolve. Qed.
+Print Assumptions removing_dead_parts_keeps_references_resolved.
